@@ -2,10 +2,10 @@ package props
 
 import (
 	"bytes"
-	"runtime"
 	"context"
 	"encoding/binary"
 	"fmt"
+	"runtime"
 	"runtime/debug"
 	"sync"
 	"testing"
